@@ -260,6 +260,55 @@ example : ∀ r c : Fin 3, (fun r c : Fin 3 => ((r.1 + c.1 : Nat) : ℚ)) r c
 /-- the 3-4-5 rotation is orthogonal and is not a signed permutation -/
 example : (Mat.toM rot345)ᵀ * Mat.toM rot345 = 1 ∧ rot345 0 0 = 3 / 5 := ⟨rot345_orth, rfl⟩
 
+/-! ## 5b. LLTSA: from `H W H` to the property's "M = the alignment matrix"
+
+`tangent_weight_matrix` hands LLTSA the REGULARISED alignment matrix `W = Align + shift · 1` (`Align` symmetric with
+`Align 1 = 0`, `shift = nullspace_shift`).  The routine's left-hand form `Fᵀ (H W H) F` is `Fᵀ Align F + shift · Fᵀ H F`:
+the pencil it solves has the eigenvectors of the property's `(X M Xᵀ) p = λ (X H Xᵀ) p` with `M = Align` and the
+eigenvalues `λ + shift`, so the order (the `d` smallest) is the same. -/
+
+/-- `H (Align + shift · 1) H = Align + shift · H` (any `N`) -/
+theorem centredForm_align {Al : Mat N N K} (shift : K) (hAl : ∀ r c, Al r c = Al c r)
+    (h0 : ∀ r, rowSums Al r = 0) :
+    centredForm (fun r c => Al r c + (if r = c then shift else 0))
+      = fun r c => Al r c + shift * centering r c :=
+  LinearGraph.centredForm_align shift hAl h0
+
+/-- a symmetric `Align ≠ 0` with zero row sums, `shift = 1/1000` -/
+example : (∀ r c, alignEx r c = alignEx c r) ∧ (∀ r, rowSums alignEx r = 0) ∧ alignEx 0 1 = -1 ∧
+    ((1 : ℚ) / 1000) ≠ 0 :=
+  ⟨alignEx_symm, alignEx_rowSums, rfl, by norm_num⟩
+
+/-- the LLTSA left-hand form is `Fᵀ Align F + shift · Fᵀ H F` -/
+theorem lltsa_pencil_align {Al : Mat N N K} (shift : K) (hAl : ∀ r c, Al r c = Al c r)
+    (h0 : ∀ r, rowSums Al r = 0) (F : Mat N D K) (i j : Fin D) :
+    fullForm (centredForm (fun r c => Al r c + (if r = c then shift else 0))) F i j
+      = fullForm Al F i j + shift * fullForm centering F i j :=
+  lltsa_pencil_align_eq shift hAl h0 F i j
+
+/-- an eigenpair `(μ, p)` of the pencil the routine builds is an eigenpair `(μ − shift, p)` of the property's problem
+    `(X Align Xᵀ) p = λ (X H Xᵀ) p` with the alignment matrix proper: same eigenvectors, eigenvalues shifted by the
+    constant `shift`, hence the same order -/
+theorem lltsa_solves_alignment_problem {Al : Mat N N K} (shift : K) (hAl : ∀ r c, Al r c = Al c r)
+    (h0 : ∀ r, rowSums Al r = 0) (F : Mat N D K) (p : Vec D K) (μ : K)
+    (hp : (Mat.toM (fullForm (centredForm (fun r c => Al r c + (if r = c then shift else 0))) F)).mulVec p
+      = μ • (Mat.toM (fullForm centering F)).mulVec p) :
+    (Mat.toM (fullForm Al F)).mulVec p = (μ - shift) • (Mat.toM (fullForm centering F)).mulVec p :=
+  lltsa_solves_alignment_eq shift hAl h0 F p μ hp
+
+/-- the eigen-hypothesis is satisfiable non-trivially: one sample pair `0`, `1` on the line, `Align = [[1,−1],[−1,1]]`,
+    `shift = 1/1000`: `Fᵀ (H W H) F = 1 + shift/2`, `Fᵀ H F = 1/2`, eigenvalue `μ = 2 + shift` for `p = 1` -/
+example : (Mat.toM (fullForm (centredForm
+      (fun r c => alignEx r c + (if r = c then (1 / 1000 : ℚ) else 0))) PreShift.shiftF)).mulVec (fun _ => 1)
+    = (2 + 1 / 1000 : ℚ) • (Mat.toM (fullForm centering PreShift.shiftF)).mulVec (fun _ => 1) := by
+  funext i
+  simp only [Matrix.mulVec, dotProduct, Finset.univ_unique, Finset.sum_singleton, Mat.toM_apply, Pi.smul_apply,
+    smul_eq_mul, mul_one]
+  rw [lltsa_pencil_align _ alignEx_symm alignEx_rowSums]
+  simp only [fullForm_apply]
+  simp [Fin.sum_univ_two, alignEx, centering, PreShift.shiftF]
+  norm_num
+
 /-! ## 6. regression witnesses (pre-fix code, `Proofs/LinearGraphPreFix.lean`)
 
 `PreFix.npeProblem`, `PreFix.lltsaProblem`, `PreFix.lppProblem` are the three routines as they read before the fix
